@@ -73,8 +73,9 @@ def scratch_apply(patch):
     return None
 
 
-def run_check(prop, scale):
+def run_check(prop, scale, extra_env=None):
     env = dict(os.environ, VERIF_SCALE=str(scale), VERIF_SELFTEST_BIN=f"{MUT}/target/release/cactus-sim", VERIF_SELFTEST_OUT=f"{MUT}/out")
+    env.update(extra_env or {})
     r = subprocess.run([sys.executable, os.path.join(D.VERIF, "driver", "driver.py"), "check", prop, "quick"], stdout=subprocess.PIPE, stderr=subprocess.STDOUT, text=True, env=env, cwd=D.VERIF)
     viol = [l for l in r.stdout.splitlines() if l.startswith("VIOLATION")]
     info = [l for l in r.stdout.splitlines() if l.startswith("violation kind=")]
@@ -93,7 +94,7 @@ def collect_patches(names):
             mp = os.path.join(sdir, name, "meta.json")
             if os.path.exists(mp):
                 meta = json.load(open(mp))
-                out.append(("seeded/" + name, os.path.join(sdir, name, "patch.diff"), meta.get("expected_checks", [meta["property"]]), False))
+                out.append(("seeded/" + name, os.path.join(sdir, name, "patch.diff"), meta.get("expected_checks", [meta["property"]]), False, meta.get("check_env")))
     if names:
         out = [o for o in out if o[0] in names or o[0].split("/")[-1] in names]
     return out
@@ -109,7 +110,8 @@ def mutants(args, seed, jobs):
     all_props = D.SIM_PROFILES + ["C15"]
     scratch_setup()
     try:
-        for name, patch, trips, equivalent in collect_patches(args):
+        for name, patch, trips, equivalent, *rest in collect_patches(args):
+            extra_env = rest[0] if rest else None
             err = scratch_apply(patch)
             if err:
                 print(f"{name}: PATCH DOES NOT APPLY OR BUILD: {err.strip()[:300]}")
@@ -119,7 +121,7 @@ def mutants(args, seed, jobs):
             row = {"name": name, "expected": trips, "caught_by": [], "missed_by": [], "also_caught_by": []}
             props = sorted(all_props) if (equivalent or os.environ.get("VERIF_MUT_ALL")) else trips
             for p in props:
-                code, viol, info, out = run_check(p, scale)
+                code, viol, info, out = run_check(p, scale, extra_env)
                 if code == 2:
                     row.setdefault("harness_errors", []).append(p)
                     print(out[-800:])
